@@ -246,3 +246,41 @@ def run_case(case, ctx):
             gs = float(np.max(np.abs(refops.mttkrp(np.abs(dref.reshape(shape)), [np.abs(f) for f in fm], k)))) + 1e-300
             ctx.check(bool(np.max(np.abs(Ge[k] - Gunw[k])) <= tolg * gs), "estimate", "WRONG-GRADIENT", f"mode {k}: sampled gradient on all entries differs from the exact one",
                       mode_k=min(k, 3))
+        # semi-stratified form of the same identity: the stored nonzeros are sampled as "nonzeros flagged for the zero correction"
+        # (they contribute f(x,m) - f(0,m)), every entry is sampled as a zero (f(0,m)); repeated draws carry reciprocal weights.  Over all
+        # entries the estimator is again the exact objective / gradient of the (sparse) data -- for one, two or many nonzeros.
+        allsubs = np.array(list(np.ndindex(*shape)))
+        for knz in (1, 2, None):
+            pos = np.argwhere(Xd != 0)
+            if len(pos) == 0:
+                break
+            if knz is not None:
+                pos = pos[rng.choice(len(pos), size=min(knz, len(pos)), replace=False)]
+            Xs = np.zeros(shape)
+            Xs[tuple(pos.T)] = Xd[tuple(pos.T)]
+            with np.errstate(all="ignore"):
+                Ls = np.asarray(fh(Xs, Md), dtype=float)
+            if not np.all(np.isfinite(Ls)):
+                continue
+            drefs, _ = _deriv(fh, Xs.reshape(-1), Md.reshape(-1), name)
+            a = int(rng.integers(1, 3))
+            b = int(rng.integers(1, 4))
+            subs = np.vstack([np.repeat(pos, a, axis=0), np.repeat(allsubs, b, axis=0)])
+            vals = np.concatenate([np.repeat(Xs[tuple(pos.T)], a), np.zeros(allsubs.shape[0] * b)])
+            wts = np.concatenate([np.full(len(pos) * a, 1.0 / a), np.full(allsubs.shape[0] * b, 1.0 / b)])
+            crng = np.arange(len(pos) * a)
+            re = ctx.call("estimate", estimate, M, subs.copy(), vals.copy(), wts.copy(), fh, gh, False, crng.copy())
+            if not re.ok:
+                ctx.check(False, "estimate", "RAISE:" + type(re.exc).__name__, f"{type(re.exc).__name__}: {re.exc} | {re.tb}", semistrat=True)
+                continue
+            Fe, Ge = re.value
+            fs3 = float(np.sum(np.abs(Ls))) + float(np.sum(np.abs(np.asarray(fh(np.zeros(shape), Md), dtype=float)))) + 1e-300
+            ctx.tag(f"semistrat nnz={'1' if len(pos) == 1 else '2' if len(pos) == 2 else 'many'} a={a} b={b}")
+            ctx.check(abs(Fe - float(np.sum(Ls))) <= 1e-9 * fs3, "estimate", "WRONG-OBJECTIVE",
+                      f"semi-stratified estimate over all entries ({len(pos)} nonzeros x{a}, zeros x{b}) {Fe!r} vs exact {float(np.sum(Ls))!r}", semistrat=True,
+                      one_nonzero=bool(len(pos) == 1), unit_weights=bool(a == 1 and b == 1))
+            for k in range(N):
+                Gs = refops.mttkrp(drefs.reshape(shape), fm, k)
+                gs = float(np.max(np.abs(refops.mttkrp(np.abs(drefs.reshape(shape)) + np.abs(np.asarray(gh(np.zeros(shape), Md), dtype=float)), [np.abs(f) for f in fm], k)))) + 1e-300
+                ctx.check(bool(np.max(np.abs(Ge[k] - Gs)) <= tolg * gs), "estimate", "WRONG-GRADIENT", f"mode {k}: semi-stratified gradient over all entries differs from the exact one",
+                          mode_k=min(k, 3), semistrat=True, one_nonzero=bool(len(pos) == 1), unit_weights=bool(a == 1 and b == 1))
